@@ -1775,6 +1775,13 @@ fn scale_one(shape0: &str, n: usize, sink_on: bool) -> String {
                 edges.push((i, 0));
             }
         }
+        "star" => {
+            // hub 0 adopts every spoke and every spoke adopts the hub back; no rim
+            for i in 1..n {
+                edges.push((0, i));
+                edges.push((i, 0));
+            }
+        }
         "clique" => {
             for i in 0..n {
                 for j in 0..n {
